@@ -84,6 +84,12 @@ def O(bits, op, *args):
     if op in ('and', 'or', 'xor', 'add', 'mul') and a[0] == 'c' and b is not None and b[0] != 'c':
         a, b = b, a  # constants to the right
         args = (a, b)
+    if op in ('urem', 'udiv') and b is not None and b[0] == 'c' and b[2] and b[2] & (b[2] - 1) == 0:
+        # division by a power of two: the same value as a mask / shift (one canonical spelling)
+        k = b[2].bit_length() - 1
+        if op == 'urem':
+            return O(bits, 'and', a, C(bits, b[2] - 1))
+        return a if k == 0 else O(bits, 'shr', a, C(bits, k))
     if op == 'and':
         if b[0] == 'c':
             if b[2] == 0:
